@@ -3,6 +3,7 @@ CONSTANTS
   Sizes <- S3
   Cuts <- CutsSmall
   PersistentReader = TRUE
+  BreakAllowed = FALSE
 VIEW View
 INVARIANTS NothingLost InOrderOnce
 PROPERTY AllDelivered
